@@ -120,6 +120,17 @@ def r2_provenance(chk, prog):
                             "the parent document pins a length for %s but this fetch is bounded only by %s: a "
                             "longer file is accepted, and a legitimate one is refused when the configured limit "
                             "is smaller than the pinned length" % (key or "this delegated role file", sorted(map(repr, size))), ctx.site(bb))
+            # inside a loop the bound belongs to THIS iteration's file: it is computed in the loop body, not
+            # carried in a variable that an earlier iteration may have set
+            comp = next((c for c in ctx.cfg.sccs() if len(c) > 1 and bb in c), None)
+            if comp is not None:
+                dbs = def_blocks_of(ctx, t.args[2])
+                inside = [x for x in dbs if x in comp]
+                outside = [x for x in dbs if x not in comp]
+                chk.require(not (inside and outside), "R2", f, "bound-computed-per-iteration",
+                            "the size bound of a fetch in a loop is a variable initialised before the loop and updated "
+                            "inside it: a file without a pinned length inherits the bound of an earlier file",
+                            ctx.site(bb))
             chk.require(bool(size) and not bad, "R2", f, "size-bound@L%s" % "fetch",
                         "the size bound of this fetch originates from %s; allowed: the configured `%s`%s — applying "
                         "another file's length refuses legitimate files or over-accepts"
